@@ -9,13 +9,19 @@ Supported Rust subset (anything else is a translation failure, reported as such)
   with a const/literal bound, tail expression; expressions: literals (dec/hex/_/suffix), paths,
   `.0`, `.inner()`, indexing by literal, calls, method calls from a fixed table, turbofish consts,
   `as` casts, unary `- !`, binary `* / % + - << >> & ^ | == != < <= > >= && ||`, parens, tuples,
-  arrays, `if c { a } else { b }`, `Self(e)`.
+  arrays, `[e; N]`, `if c { a } else { b }`, `Self(e)`; array patterns `let [a, (b, c)] = e;`,
+  `for r in 0..N { .. }` with a literal bound whose index is used (unrolled; `a[r]` / `a[r] = e` on
+  fixed-size arrays), a `&mut` parameter without return type (the function returns its final value).
 
 Two modes per function:
   kernel  : machine integers -> `BitVec w` with Rust *release* (wrapping) semantics; the element
             newtype is transparent (`Self(x)`, `x.0`, `from_mont`, `inner()` are identities).
   formula : field-element formulas -> polymorphic Lean code over `Wf.FieldOps F`
-            (`+ - *`, `double`, `square`, `neg`, `Self::new(c)`, `ZERO`, `ONE`, arrays as tuples).
+            (`+ - *`, `double`, `square`, `cube`, `neg`, `Self::new(c)`, `ZERO`, `ONE`, arrays as tuples).
+  A formula function may be marked `"lanes": True`: every array of field elements in it is processed
+  pointwise (`a.iter_mut().for_each(|t| *t = f(t))`, `a.iter_mut().zip(b).for_each(|(r, t)| *r *= t)`,
+  `for (i, s) in a.iter_mut().enumerate() { .. b[i] .. *s .. }`), and ONE lane is translated: the
+  arrays become single elements (see `lanes_rewrite`).
 """
 import os
 import re
@@ -103,9 +109,23 @@ def find_fn(src, anchor, name):
 
 def find_const(src, name):
     m = re.search(r"\bconst\s+" + re.escape(name) + r"\s*:\s*([A-Za-z0-9_]+)\s*=\s*([^;]+);", src)
+    if m:
+        return m.group(1), m.group(2).strip()
+    # array / tuple typed constant: `const NAME: [(i64, i64); 3] = [..];`
+    m = re.search(r"\bconst\s+" + re.escape(name) + r"\s*:", src)
     if not m:
         raise TError(f"const {name} not found")
-    return m.group(1), m.group(2).strip()
+    # the type may itself contain `;` (array length): take the `=` that follows the balanced type
+    depth, i = 0, m.end()
+    while not (src[i] == "=" and depth == 0):
+        depth += (src[i] in "[(") - (src[i] in "])")
+        i += 1
+    depth, j = 0, i + 1
+    while not (src[j] == ";" and depth == 0):
+        depth += (src[j] in "[(") - (src[j] in "])")
+        j += 1
+    ty = Parser(tokenize(src[m.end():i])).parse_type()
+    return ty, src[i + 1:j].strip()
 
 
 # ---------------------------------------------------------------------------------------------
@@ -238,6 +258,12 @@ class Parser:
                 ps.append(self.parse_pat())
                 self.accept(",")
             return ("ptuple", ps)
+        if self.accept("["):
+            ps = []
+            while not self.accept("]"):
+                ps.append(self.parse_pat())
+                self.accept(",")
+            return ("ptuple", ps)
         self.accept("mut")
         return ("pvar", self.next()[1])
 
@@ -338,7 +364,15 @@ class Parser:
             return ("paren", e)
         if val == "[":
             self.next()
-            return ("array", self.parse_args("]"))
+            if self.accept("]"):
+                return ("array", [])
+            first = self.parse_expr()
+            if self.accept(";"):
+                n = self.parse_expr()
+                self.expect("]")
+                return ("repeat", first, n)
+            self.accept(",")
+            return ("array", [first] + self.parse_args("]"))
         if val == "if":
             self.next()
             c = self.parse_expr(no_struct=True)
@@ -405,12 +439,17 @@ class Gen:
         self.mode = fn["mode"]
         self.elem = spec.get("elem") if self.mode == "kernel" else None
         self.consts = consts          # name -> (type, lean_name)
-        self.fnsigs = fnsigs          # rust name -> (lean name, [param types], ret type, const params)
+        self.fnsigs = fnsigs          # rust name -> (lean name, [param types], ret type, const params, mode, generics)
+        self.lanes = bool(fn.get("lanes"))
         self.fresh = 0
 
     def norm_ty(self, t):
         if t in ("Self", "BaseElement", "Self::BaseField"):
             return "E"
+        if self.lanes and t == "B":
+            return "E"
+        if self.lanes and isinstance(t, tuple) and t[0] == "arr" and self.norm_ty(t[2]) == "E":
+            return "E"          # one lane of an array that is processed pointwise
         if t == "Self::PositiveInteger":
             return self.spec["elem"]
         if isinstance(t, tuple) and t[0] == "tuple":
@@ -477,11 +516,16 @@ class Gen:
             raise TError(f"unsupported field access .{e[2]} on {t!r}")
         if k == "index":
             l, t = self.expr(e[1], env)
-            if e[2][0] != "lit":
-                raise TError("index must be a literal")
+            i = self.const_index(e[2], env)
             if isinstance(t, tuple) and t[0] == "arr":
-                return self.proj(l, e[2][1], t[1]), t[2]
+                if not 0 <= i < t[1]:
+                    raise TError(f"index {i} out of bounds for {t!r}")
+                return self.proj(l, i, t[1]), t[2]
             raise TError(f"indexing into {t!r}")
+        if k == "repeat":
+            n = self.const_index(e[2], env)
+            l, t = self.expr(e[1], env, (want[2] if isinstance(want, tuple) and want[0] == "arr" else None))
+            return "(" + ", ".join([l] * n) + ")", ("arr", n, t)
         if k == "tuple":
             parts = [self.expr(x, env, (want[1][i] if isinstance(want, tuple) and want[0] == "tuple" else None))
                      for i, x in enumerate(e[1])]
@@ -526,6 +570,17 @@ class Gen:
         if k == "mcall":
             return self.mcall(e, env, want)
         raise TError(f"unsupported expression {k}")
+
+    def const_index(self, e, env):
+        """an index that is known at translation time: a literal or the variable of an unrolled loop"""
+        while e[0] == "paren":
+            e = e[1]
+        if e[0] == "lit":
+            return e[1]
+        if e[0] == "path" and len(e[1]) == 1 and e[1][0] in env and isinstance(env[e[1][0]][1], tuple) \
+                and env[e[1][0]][1][0] == "idx":
+            return env[e[1][0]][1][1]
+        raise TError("index must be a literal or the index of an unrolled loop")
 
     def proj(self, l, i, n):
         # right-nested Lean tuples
@@ -636,13 +691,19 @@ class Gen:
                     raise TError("Self::new(non-literal) in formula mode")
                 return f"(ops.ofNat {args[0][1]})", "E"
             if "new" in self.fnsigs:
-                ln, ptys, rty, _, _ = self.fnsigs["new"]
+                ln, ptys, rty = self.fnsigs["new"][:3]
                 l, t = self.expr(args[0], env, ptys[0])
                 return f"({ln} {l})", rty
             raise TError("Self::new not translated")
         if name in self.fnsigs:
-            ln, ptys, rty, cps, _ = self.fnsigs[name]
+            ln, ptys, rty, cps = self.fnsigs[name][:4]
+            gps = self.fnsigs[name][5] if len(self.fnsigs[name]) > 5 else None
             ls = []
+            if gps is not None and len(consts) == len(gps) and len(gps) != len(cps):
+                # full turbofish `f::<T, N, 3>`: keep the arguments of the const parameters that were translated
+                consts = [c for c, (gname, _) in zip(consts, gps) if gname in cps]
+            if len(consts) != len(cps):
+                raise TError(f"call of {name}: {len(consts)} const arguments for {len(cps)} const parameters")
             for c in consts:
                 ls.append(str(c))
             for a, pt in zip(args, ptys):
@@ -661,6 +722,8 @@ class Gen:
         if t == "E" and self.elem is None:
             if name in ("double", "square", "neg", "inv", "conjugate"):
                 return f"(ops.{name} {l})", "E"
+            if name == "cube":      # FieldElement::cube: self * self * self
+                return f"(ops.mul (ops.mul {l} {l}) {l})", "E"
             raise TError(f"method {name} on field element")
         if t == "E" and self.elem and name in self.fnsigs:   # kernel-mode method implemented by a translated fn
             ln = self.fnsigs[name][0]
@@ -700,6 +763,8 @@ class Gen:
     def pat(self, p, t):
         if p[0] == "pvar":
             return p[1] if p[1] != "_" else "_", {p[1]: t} if p[1] != "_" else {}
+        if isinstance(t, tuple) and t[0] == "arr" and t[1] == len(p[1]):
+            t = ("tuple", (t[2],) * t[1])
         if not (isinstance(t, tuple) and t[0] == "tuple") or len(t[1]) != len(p[1]):
             raise TError(f"tuple pattern against {t!r}")
         names, binds = [], {}
@@ -714,7 +779,7 @@ class Gen:
         for s in stmts:
             if s[0] == "assign":
                 tgt = s[1]
-                while tgt[0] in ("field",):
+                while tgt[0] in ("field", "index"):
                     tgt = tgt[1]
                 if tgt[0] != "path":
                     raise TError("assignment to a non-variable")
@@ -745,11 +810,28 @@ class Gen:
                 tgt = s[1]
                 if tgt[0] == "field" and tgt[2] == 0:
                     tgt = tgt[1]
+                if tgt[0] == "index" and tgt[1][0] == "path" and tgt[1][1][0] in env:
+                    # `a[i] = e` on a fixed-size array with a translation-time index: rebuild the tuple
+                    n = tgt[1][1][0]
+                    an, at = env[n]
+                    if not (isinstance(at, tuple) and at[0] == "arr"):
+                        raise TError(f"element assignment into {at!r}")
+                    i = self.const_index(tgt[2], env)
+                    if not 0 <= i < at[1]:
+                        raise TError(f"index {i} out of bounds for {at!r}")
+                    l, t = self.expr(s[2], env, at[2])
+                    if self.ity(t) != self.ity(at[2]):
+                        raise TError(f"element assignment of {t!r} into {at!r}")
+                    parts = [l if j == i else self.proj(an, j, at[1]) for j in range(at[1])]
+                    lines.append(f"let {n} := (" + ", ".join(parts) + ")")
+                    env[n] = (n, at)
+                    continue
                 if tgt[0] != "path" or tgt[1][0] not in env:
                     raise TError("assignment to unknown variable")
                 n = tgt[1][0]
                 l, t = self.expr(s[2], env, env[n][1])
                 lines.append(f"let {n} := {l}")
+                env[n] = (n, env[n][1])
             elif s[0] == "ifstmt":
                 c, a, b = s[1][1], s[1][2], s[1][3]
                 if a[1] is not None or (b and b[1] is not None):
@@ -778,8 +860,27 @@ class Gen:
                     n = hi[1][0]
                 else:
                     raise TError("for loop bound must be a literal or const generic")
+                if var != "_":
+                    # the index is used: unroll (literal bound only)
+                    if hi[0] != "lit":
+                        raise TError("an indexed for loop needs a literal bound")
+                    def pat_names(q):
+                        return [q[1]] if q[0] == "pvar" else [n for r in q[1] for n in pat_names(r)]
+                    for b in body:
+                        if b[0] == "let":
+                            for x in pat_names(b[1]):
+                                if x in env:
+                                    raise TError(f"loop-local `{x}` would shadow an outer variable after unrolling")
+                    for k in range(hi[1]):
+                        e2 = dict(env)
+                        e2[var] = (str(k), ("idx", k))
+                        self.stmts(body, e2, lines)
+                        for x in self.assigned(body):
+                            if x in env:
+                                env[x] = e2[x]
+                    continue
                 outer = [x for x in self.assigned(body) if x in env]
-                if len(outer) != 1 or var != "_":
+                if len(outer) != 1:
                     raise TError("for loop must update exactly one variable and ignore the index")
                 v = outer[0]
                 e2 = dict(env)
@@ -793,6 +894,8 @@ class Gen:
 
 
 def parse_sig(sig):
+    """-> name, const generic params, params, return type, all generic params [(name, is_const)],
+    names of the `&mut` parameters"""
     toks = tokenize(strip_comments(sig))
     p = Parser(toks)
     while p.peek()[1] != "fn":
@@ -800,17 +903,26 @@ def parse_sig(sig):
     p.next()
     name = p.next()[1]
     cps = []
+    gps = []
     if p.accept("<"):
+        start = True
         while not p.accept(">"):
             if p.accept("const"):
                 cps.append(p.next()[1])
+                gps.append((cps[-1], True))
                 p.expect(":")
                 p.parse_type()
+                start = False
+            elif p.accept(","):
+                start = True
             else:
-                p.next()
-            p.accept(",")
+                tok = p.next()[1]
+                if start:
+                    gps.append((tok, False))
+                start = False
     p.expect("(")
     params = []
+    mutrefs = []
     while not p.accept(")"):
         p.accept("&")
         p.accept("mut")
@@ -819,32 +931,113 @@ def parse_sig(sig):
             params.append(("self_", "Self"))
         else:
             p.expect(":")
+            if p.peek()[1] == "&" and p.peek(1)[1] == "mut":
+                mutrefs.append(n)
             params.append((n, p.parse_type()))
         p.accept(",")
     ret = None
     if p.accept("->"):
         ret = p.parse_type()
-    return name, cps, params, ret
+    return name, cps, params, ret, gps, mutrefs
+
+
+# ---------------------------------------------------------------------------------------------
+# "lanes": arrays of field elements that are processed pointwise -> one lane
+# ---------------------------------------------------------------------------------------------
+def _matching(src, i, op="(", cl=")"):
+    """index of the bracket matching the one at src[i]"""
+    d = 0
+    while True:
+        d += (src[i] == op) - (src[i] == cl)
+        if d == 0:
+            return i
+        i += 1
+
+
+def lanes_rewrite(body):
+    """source-level rewriting of the pointwise idioms (every array of the function is one lane):
+         A.iter_mut().for_each(|t| *t = EXPR)                  =>  A = EXPR[t := A];
+         A.iter_mut().zip(B).for_each(|(r, t)| *r OP= t)        =>  A OP= B;
+         for (i, s) in A.iter_mut().enumerate() { BODY }        =>  BODY[X[i] := X, *s := A]
+       anything else that mentions iterators/closures is rejected."""
+    out = body
+    while True:
+        m = re.search(r"\b(\w+)\s*\.iter_mut\(\)\s*\.for_each\(", out)
+        if not m:
+            break
+        e = _matching(out, m.end() - 1)
+        inner = out[m.end():e]
+        c = re.match(r"\s*\|(\w+)\|\s*\*\s*(\w+)\s*=\s*(.*)$", inner, flags=re.S)
+        if not c or c.group(1) != c.group(2):
+            raise TError(f"lanes: unsupported closure {inner!r}")
+        expr = re.sub(r"\b" + re.escape(c.group(1)) + r"\b", m.group(1), c.group(3).strip())
+        rest = out[e + 1:]
+        rest = rest[1:] if rest.startswith(";") else rest
+        out = out[:m.start()] + f"{m.group(1)} = {expr};" + rest
+    while True:
+        m = re.search(r"\b(\w+)\s*\.iter_mut\(\)\s*\.zip\((\w+)\)\s*\.for_each\(", out)
+        if not m:
+            break
+        e = _matching(out, m.end() - 1)
+        inner = out[m.end():e]
+        c = re.match(r"\s*\|\((\w+),\s*(\w+)\)\|\s*\*\s*(\w+)\s*(\*=|\+=|-=)\s*(\w+)\s*$", inner, flags=re.S)
+        if not c or c.group(1) != c.group(3) or c.group(2) != c.group(5):
+            raise TError(f"lanes: unsupported closure {inner!r}")
+        rest = out[e + 1:]
+        rest = rest[1:] if rest.startswith(";") else rest
+        out = out[:m.start()] + f"{m.group(1)} {c.group(4)} {m.group(2)};" + rest
+    while True:
+        m = re.search(r"\bfor\s*\((\w+),\s*(\w+)\)\s*in\s*(\w+)\s*\.iter_mut\(\)\s*\.enumerate\(\)\s*\{", out)
+        if not m:
+            break
+        e = _matching(out, m.end() - 1, "{", "}")
+        inner = out[m.end():e]
+        i, sv, arr = m.group(1), m.group(2), m.group(3)
+        inner = re.sub(r"\[\s*" + re.escape(i) + r"\s*\]", "", inner)
+        inner = re.sub(r"\*\s*" + re.escape(sv) + r"\b", arr, inner)
+        if re.search(r"\b(" + re.escape(i) + "|" + re.escape(sv) + r")\b", inner):
+            raise TError("lanes: loop variable used outside `x[i]` / `*s`")
+        out = out[:m.start()] + inner + out[e + 1:]
+    if re.search(r"iter|\|", out):
+        raise TError("lanes: an iterator/closure idiom was not recognised")
+    return out
 
 
 def translate(spec):
-    src = strip_comments(open(os.path.join(REPO, spec["file"])).read())
-    out = [f"/- GENERATED by tools/rs2lean.py from {spec['file']} — do not edit; regenerated on every check run. -/",
-           "import Wf.Model.FieldOps", f"namespace {spec['namespace']}", ""]
+    srcs = {}
+
+    def source(path):
+        if path not in srcs:
+            srcs[path] = strip_comments(open(os.path.join(REPO, path)).read())
+        return srcs[path]
+    files = []
+    for fn in spec["fns"]:
+        f = fn.get("file", spec.get("file"))
+        if f not in files:
+            files.append(f)
+    out = [f"/- GENERATED by tools/rs2lean.py from {', '.join(files)} — do not edit; regenerated on every check run. -/",
+           "import Wf.Model.FieldOps"] + [f"import {m}" for m in spec.get("imports", [])] + [f"namespace {spec['namespace']}", ""]
     consts = {}
     for c in spec.get("consts", []):
-        ty, val = find_const(src, c)
+        cname, cfile = (c, spec.get("file")) if isinstance(c, str) else c
+        ty, val = find_const(source(cfile), cname)
         toks = tokenize(val)
         e = Parser(toks).parse_expr()
         g = Gen(spec, {"mode": "kernel"}, consts, {})
         l, t = g.expr(e, {}, ty)
-        out.append(f"def {c} : {lean_ty(ty, None)} := {l}")
-        consts[c] = (ty, c)
+        out.append(f"def {cname} : {lean_ty(ty, None)} := {l}")
+        consts[cname] = (ty, cname)
     out.append("")
     fnsigs = {}
+    for k, v in spec.get("extern", {}).items():      # functions translated by another spec (see "imports")
+        fnsigs[k] = tuple(v)
     for fn in spec["fns"]:
-        sig, body = find_fn(src, fn.get("anchor"), fn["name"])
-        name, cps, params, ret = parse_sig(sig)
+        fpath = fn.get("file", spec.get("file"))
+        sig, body = find_fn(source(fpath), fn.get("anchor"), fn["name"])
+        name, cps, params, ret, gps, mutrefs = parse_sig(sig)
+        cps = [c for c in cps if c not in fn.get("drop_consts", [])]
+        if fn.get("lanes"):
+            body = lanes_rewrite(body)
         g = Gen(spec, fn, consts, fnsigs)
         env = {}
         binders = []
@@ -859,18 +1052,28 @@ def translate(spec):
             ptys.append(nt)
             env[n if n != "self_" else "self"] = (n, nt)
             binders.append(f"({n} : {lean_ty(nt, g.elem)})")
-        rty = g.norm_ty(ret)
         toks = tokenize(body)
         blk = Parser(toks).parse_block()
+        if ret is None and len(mutrefs) == 1 and blk[1] is None:
+            # `fn f(state: &mut T, ..)`: the function returns the final value of `state`
+            rty = env[mutrefs[0]][1]
+            blk = (blk[0], ("path", [mutrefs[0]], []))
+        elif ret is None and len(mutrefs) == 1 and fn.get("lanes"):
+            # the body is a single pointwise statement written as the tail expression
+            rty = env[mutrefs[0]][1]
+            blk = (blk[0] + [("expr", blk[1])], ("path", [mutrefs[0]], []))
+        else:
+            rty = g.norm_ty(ret)
         l, t = g.block(blk, env, rty)
         if g.ity(t) != g.ity(rty) and t != rty:
             raise TError(f"{fn['name']}: body has type {t!r}, signature says {rty!r}")
         lname = fn.get("lean", fn["name"])
-        out.append(f"/-- `{fn.get('anchor') or 'fn'}` :: `{fn['name']}` -/")
+        out.append(f"/-- `{fpath}` :: `{fn.get('anchor') or 'fn'}` :: `{fn['name']}` -/" if "file" in fn
+                   else f"/-- `{fn.get('anchor') or 'fn'}` :: `{fn['name']}` -/")
         out.append(f"def {lname} {' '.join(binders)} : {lean_ty(rty, g.elem)} :=")
         out.append("  " + l.replace("\n", "\n  "))
         out.append("")
-        fnsigs[fn.get("key", fn["name"])] = (lname, ptys, rty, cps, fn["mode"])
+        fnsigs[fn.get("key", fn["name"])] = (lname, ptys, rty, cps, fn["mode"], gps)
     out.append(f"end {spec['namespace']}")
     return "\n".join(out) + "\n"
 
@@ -893,7 +1096,50 @@ def eval_nat_const(src, name, env, anchor=None):
         return int(e, 0)
     if e in env:
         return env[e]
+    # simple arithmetic over earlier constants and range ends: `RATE_RANGE.end - RATE_RANGE.start`
+    def sub(m):
+        key = m.group(0).replace(".", "_")
+        if key not in env:
+            raise TError(f"const {name}: unknown name {m.group(0)!r}")
+        return str(env[key])
+    e2 = re.sub(r"[A-Za-z_][A-Za-z0-9_]*(?:\.(?:start|end))?", sub, e)
+    if re.match(r"^[0-9+\-* ()]+$", e2):
+        return int(eval(e2, {"__builtins__": {}}))
     raise TError(f"const {name}: cannot evaluate {e!r}")
+
+
+def find_range(src, name):
+    m = re.search(r"\bconst\s+" + re.escape(name) + r"\s*:\s*Range<usize>\s*=\s*([0-9_]+)\s*\.\.\s*([0-9_]+)\s*;", src)
+    if not m:
+        raise TError(f"range const {name} not found")
+    return int(m.group(1).replace("_", "")), int(m.group(2).replace("_", ""))
+
+
+def find_table(src, name):
+    """`const NAME: [[BaseElement; W]; H] = [[BaseElement::new(lit), ..], ..];` -> list of rows"""
+    m = re.search(r"\bconst\s+" + re.escape(name) + r"\s*:\s*\[\s*\[\s*BaseElement\s*;\s*(\w+)\s*\]\s*;\s*(\w+)\s*\]\s*=\s*\[", src)
+    if not m:
+        raise TError(f"table {name} not found")
+    e = _matching(src, m.end() - 1, "[", "]")
+    body = src[m.end():e]
+    rows = []
+    i = 0
+    while True:
+        j = body.find("[", i)
+        if j < 0:
+            break
+        if body[i:j].strip(" \n\t,") != "":
+            raise TError(f"table {name}: unexpected text {body[i:j]!r}")
+        k = _matching(body, j, "[", "]")
+        row = body[j + 1:k]
+        vals = re.findall(r"BaseElement::new\(\s*([0-9][0-9_]*|0x[0-9a-fA-F_]+)\s*\)", row)
+        if re.sub(r"BaseElement::new\(\s*(?:[0-9][0-9_]*|0x[0-9a-fA-F_]+)\s*\)", "", row).strip(" \n\t,") != "":
+            raise TError(f"table {name}: row is not a list of BaseElement::new(literal)")
+        rows.append([int(v.replace("_", ""), 0) for v in vals])
+        i = k + 1
+    if body[i:].strip(" \n\t,") != "":
+        raise TError(f"table {name}: unexpected trailing text")
+    return m.group(1), m.group(2), rows
 
 
 def translate_natconsts(spec):
@@ -909,6 +1155,27 @@ def translate_natconsts(spec):
             v = eval_nat_const(src, name, env, anchor)
             env[name] = v
             out.append(f"def {name} : Nat := {v}")
+        for r in grp.get("ranges", []):
+            lo, hi = find_range(src, r)
+            env[r + "_start"], env[r + "_end"] = lo, hi
+            out.append(f"def {r}_start : Nat := {lo}")
+            out.append(f"def {r}_end : Nat := {hi}")
+        for c in grp.get("derived", []):
+            v = eval_nat_const(src, c, env)
+            env[c] = v
+            out.append(f"def {c} : Nat := {v}")
+        for t in grp.get("tables", []):
+            w, h, rows = find_table(src, t)
+            for dim, n in ((w, None), (h, len(rows))):
+                if dim not in env and not dim.isdigit():
+                    raise TError(f"table {t}: dimension {dim} is not a translated constant")
+            wv = env[w] if w in env else int(w)
+            hv = env[h] if h in env else int(h)
+            if len(rows) != hv or any(len(r) != wv for r in rows):
+                raise TError(f"table {t}: shape differs from the declared [[_; {w}]; {h}]")
+            out.append(f"/-- `{t}`: {hv} rows of {wv} `BaseElement::new(literal)` -/")
+            out.append(f"def {t} : List (List Nat) := [")
+            out.append(",\n".join("  [" + ", ".join(str(v) for v in r) + "]" for r in rows) + "]")
         out.append(f"end {grp['ns']}")
         out.append("")
     out.append(f"end {spec['namespace']}")
